@@ -16,12 +16,12 @@ def sim(text, extra=""):
 
 CLAIMED.update({
     "C01": sim("Exhaustive TLC exploration of the simulator specification on small configuration families (incl. adversarial proposals and permuted allocation-process orders) with the single-execution invariants, plus event-by-event validation of hundreds of real executions (every shipped policy, a scripted adversary, permuted process orders) against the same specification and the same invariants."),
-    "C02": sim("TLC checks the pool partition, counter truth and end-state invariants in every reachable state of the small families; every event of real executions is validated against the spec and the invariants evaluated on the logged pools/counters.", " + replay of the ClusterAPI state graph into the real Cluster"),
+    "C02": sim("TLC checks the pool partition, counter truth and end-state invariants in every reachable state of the small families; every event of real executions is validated against the spec and the invariants evaluated on the logged pools/counters.", " + TLC exploration of every Cluster operation history (MC_ClusterAPI) + real Cluster histories validated against ClusterAPI.tla + Apalache inductive invariant (ClusterPools.tla)"),
     "C03": sim("Precedence and exact start-time clauses are action properties of the spec (all policies, delays, DAG shapes of the W family) and are evaluated by TLC on every logged start of every real execution."),
     "C04": sim("Status monotonicity / single start as action property, quiescent end state as invariant at `returned`, on all families incl. the adversary; same clauses on complete real runs and their returned tables."),
-    "C05": sim("Safety form of termination: no crash and now <= SerialBound(cfg) as invariants over all feasible configurations of the families; real feasible runs must return within the bound."),
+    "C05": sim("Safety form of termination: no crash and now <= SerialBound(cfg) as invariants over all feasible configurations of the families, cross-checked by the liveness property <>(run # running) under weak fairness; real feasible runs must return within the bound. Two listed known findings (tiering) are reproduced, not reported.", " + TLC liveness under fairness"),
     "C06": sim("aft - ast = max(1, floor runtime) + injected delay as action property on every task end of the spec and of every real execution."),
-    "C07": sim("Buffer bounds, conservation, per-step deposit and release amounts as invariants/action properties; evaluated after every real event."),
+    "C07": sim("Buffer bounds, conservation, per-step deposit and release amounts (only when the observation's own workflow completed), rejection of over-rate ingest as invariants/action properties; evaluated after every real event of simulations and of tier-move histories on a real Buffer.", " + MC_Buffer"),
     "C08": sim("Admission preconditions evaluated in the state before the telescope's step, limits, ingest holding interval, status order and on-time start when idle, on the spec and on real traces."),
     "C09": sim("Reservation exclusivity, count, size and release clauses on batch families and on real batch executions."),
     "C12": sim("Monitor row = TrueRow(state at the beginning of the step) and one row per step, in the spec and for every row of every real execution."),
